@@ -63,7 +63,7 @@ fn registry() -> Vec<CheckDef> {
         id: "C17",
         level: "exploration",
         workers: 16,
-        rule: "proptest-generated directory populations: 0-9 key-named files (6 mtime slots, 3 read-mark states), 0-2 dot-prefixed application files, optional .git/ directory and nested/deep/ directory with content, 0-5 files directly in .kismet_temp with mtimes at limit-{1h,1s,1ns}, exactly the limit, limit+{1ns,1s,59min}, optional subdirectory inside .kismet_temp (own mtime and inner files across the same offsets, inner names colliding with top-level temp names); capacity 0..n+1; plain or 2-shard cache; maintenance forced through a set/put of a fresh key with the trigger scripted to fire under a frozen virtual clock; non-trivial = maintenance evicted AND (a dot file is present or a temp file lies within 1 s of the limit)",
+        rule: "proptest-generated directory populations: 0-9 key-named files (6 mtime slots, 3 read-mark states), 0-2 dot-prefixed application files, optional .git/ directory and nested/deep/ directory with content, 0-5 files directly in .kismet_temp with mtimes at limit-{1h,1s,1ns}, exactly the limit, limit+{1ns,1s,59min} and 1-2 hours in the FUTURE (clock skew), optional subdirectory inside .kismet_temp (own mtime and inner files across the same offsets, inner names colliding with top-level temp names); capacity 0..n+1; plain or 2-shard cache; maintenance forced through a set/put of a fresh key with the trigger scripted to fire under a frozen virtual clock; non-trivial = maintenance evicted AND (a dot file is present or a temp file lies within 1 s of the limit)",
         run: kvlib::c17::run,
         replay: kvlib::c17::replay,
         assumptions: &["CLOCK_REALTIME is served from a frozen virtual clock by the shim so that the one-hour boundary is exact", "files nested in subdirectories of .kismet_temp that are older than the limit may or may not be removed (not demanded); younger ones must survive", "oracle for the key-named population: DirExplainer + clock-queue predicate"],
@@ -198,7 +198,7 @@ fn registry() -> Vec<CheckDef> {
         id: "C01",
         level: "exploration",
         workers: 16,
-        rule: "proptest-generated program sets on {plain, sharded 2-3 shards, stacked over plain/sharded with a preloaded read-only level, optionally with a byte-equality checker} with per-directory capacity 0-2 (maintenance on every write, including eviction of what was just published), shared or separate handles, directories initially missing or not; 2-3 participants x 1-2 operations from {set, put, ensure, promote, replace, get (read at once, or handle held to the end of the program), touch, maintenance-only write, get through a ReadOnlyCache laid over the writers' directory} over 2 keys with value sizes {1, 17, 4096, 8193, 70000}; data-plane calls (write, copy_file_range, read) are scheduling points too; for every program set ALL single-preemption schedules + generated random-walk and PCT schedules; at EVERY scheduling point all cache directories are scanned with everybody paused; non-trivial = a lookup overlapped in time with a write to the same key by another participant; distinct by hash of (layout, programs, picks)",
+        rule: "proptest-generated program sets on {plain, sharded 2-3 shards, stacked over plain/sharded with a preloaded read-only level, optionally with a byte-equality checker} with per-directory capacity 0-2 (maintenance on every write, including eviction of what was just published), shared or separate handles, directories initially missing or not; 2-3 participants x 1-2 operations from {set, put, ensure, promote, replace, get (read at once, or handle held to the end of the program), touch, maintenance-only write, get through a ReadOnlyCache laid over the writers' directory} over 2 keys with value sizes {1, 17, 4096, 8193, 70000} (one operation kind stages its value on another filesystem so that rename/link fail with EXDEV); data-plane calls (write, copy_file_range, read) are scheduling points too; for every program set ALL single-preemption schedules + generated random-walk and PCT schedules; at EVERY scheduling point all cache directories are scanned with everybody paused; non-trivial = a lookup overlapped in time with a write to the same key by another participant; distinct by hash of (layout, programs, picks)",
         run: kvlib::c01::run,
         replay: kvlib::c01::replay,
         assumptions: &["values are self-describing (key, writer, sequence, length + keyed pseudo-random body), so completeness and provenance are decidable from the bytes", "the kernel executes each libc call atomically; threads stand in for processes", "two copies of a key in a sharded cache under concurrent writers are allowed (documented) and not flagged"],
